@@ -232,6 +232,7 @@ type Session struct {
 	pending  map[*ssa.BasicBlock][]parked
 	rpo      map[*ssa.BasicBlock]int
 	fwdPreds map[*ssa.BasicBlock]int
+	rpoDone  map[*ssa.Function]bool
 	resumeBlock *ssa.BasicBlock
 }
 
@@ -452,6 +453,12 @@ func (s *Session) check(st *State, kind, name string, goal Term, pos token.Pos) 
 
 // checkG: as check, for a goal of proof slice g: assumptions of other slices are left out.
 func (s *Session) checkG(st *State, kind, name string, goal Term, pos token.Pos, g string) {
+	if s.con != nil {
+		if why, ok := s.con.Waive[kind]; ok {
+			s.note("WAIVED obligation kind " + kind + " in " + s.name + ": " + why)
+			return
+		}
+	}
 	if goal.S == "true" {
 		// still count it: trivially discharged by the generator
 		s.vcs = append(s.vcs, &VC{Obl: name, Kind: kind, Fn: s.name, Path: strings.Join(st.path, ""), Goal: "true", Status: "unsat", Solver: "trivial", Pos: s.P.pos(pos)})
@@ -1091,10 +1098,14 @@ func (s *Session) callsiteGhostKeys(name string, li *loopInfo) {
 			if id == nil {
 				continue
 			}
-			for _, sp := range s.P.specs {
+			for gpath, sp := range s.P.specs {
 				for _, g := range sp.Ghosts {
 					if g.Name == id.Name {
-						t := s.P.resolveType(s.fn.Pkg.Pkg, g.Type)
+						gp := s.pkgTypes(gpath)
+						if gp == nil {
+							gp = s.fn.Pkg.Pkg
+						}
+						t := s.P.resolveType(gp, g.Type)
 						if mt, ok := t.(*types.Map); ok {
 							li.keys[ghostKey(g.Name)] = ArrSort(sortOf(mt.Key()), sortOf(mt.Elem()))
 						} else {
